@@ -521,8 +521,18 @@ func addHost(m map[string]extFn) {
 		data, ok := concreteBytes(a[0])
 		i, _ := a[1].(iface)
 		pt, isPtr := i.t.(*types.Pointer)
-		if !ok || !isPtr || !isString(pt.Elem()) {
-			panic(unsupported("encoding/json.Unmarshal of symbolic data or non-*string target"))
+		if !isPtr || !isString(pt.Elem()) {
+			panic(unsupported("encoding/json.Unmarshal into a non-*string target (reflection)"))
+		}
+		if !ok {
+			s, good := ex.jsonDecodeString(a[0].([]value))
+			if !good {
+				return ex.hostError("invalid JSON string")
+			}
+			if s != nil {
+				*(i.v.(*value)) = s
+			}
+			return iface{}
 		}
 		var s string
 		err := json.Unmarshal(data, &s)
